@@ -553,7 +553,9 @@ pub(crate) fn remove_smallest_matching_suffix<'a>(
             clippy::string_slice,
             reason = "because we get the indices from char_indices()"
         )]
-        for (idx, _) in s.char_indices().rev() {
+        // Consider every suffix, from the empty one up to the whole string.
+        let indices = s.char_indices().map(|(idx, _)| idx).chain([s.len()]);
+        for idx in indices.rev() {
             let suffix = &s[idx..];
             if re.is_match(suffix)? {
                 return Ok(&s[..idx]);
